@@ -71,6 +71,24 @@ func genContainer(r *rand.Rand, name string) interface{} {
 		}
 		fs = append(fs, wF("args", wQ(a...)))
 	}
+	if r.Intn(3) == 0 {
+		// ports: a list with TWO merge keys (containerPort, protocol); the secondary key is usually left out
+		var ps []interface{}
+		withProto := r.Intn(4) == 0
+		for _, n := range []string{"80", "443", "8080"} {
+			if r.Intn(2) == 0 {
+				pf := [][]interface{}{wF("containerPort", wS("!!int", n))}
+				if withProto {
+					pf = append(pf, wF("protocol", wS("!!str", "TCP")))
+				}
+				if r.Intn(3) == 0 {
+					pf = append(pf, wF("name", wS("!!str", "p"+n)))
+				}
+				ps = append(ps, wM(pf...))
+			}
+		}
+		fs = append(fs, wF("ports", wQ(ps...)))
+	}
 	r.Shuffle(len(fs), func(i, j int) { fs[i], fs[j] = fs[j], fs[i] })
 	return wM(fs...)
 }
@@ -215,6 +233,14 @@ func editObject(r *rand.Rand, w interface{}, depth int, allowDirectives bool) {
 			case 1:
 				if allowDirectives {
 					if m, ok := e.([]interface{}); ok && m[0] == "m" {
+						if cp := wGet(e, "containerPort"); cp != nil {
+							df := [][]interface{}{wF("containerPort", cp)}
+							if pr := wGet(e, "protocol"); pr != nil {
+								df = append(df, wF("protocol", pr))
+							}
+							out = append(out, wM(append(df, wF("$patch", wS("!!str", "delete")))...))
+							continue
+						}
 						if nm := wGet(e, "name"); nm != nil {
 							out = append(out, wM(wF("name", nm), wF("$patch", wS("!!str", "delete"))))
 							continue
